@@ -197,7 +197,9 @@ static void op_permute(const SpIn& Ain, const std::vector<int>& p)
     const long n = A.rows();
     GivenOrdering ord; ord.pinv.assign((size_t) n, 0);
     for (long i = 0; i < n; i++) ord.pinv[(size_t) p[(size_t) i]] = (int) i;
-    SpM C;
+    // the output matrix is deliberately REUSED across calls (as sparse::KKT::init does with its PKPt member on a repeated setup()):
+    // the kernel must not depend on what the output held before
+    static SpM C;
     Vec<int> map = sparse::permute_sparse_symmetric_matrix(A, C, ord);
     out_csc("C", C);
     out("map", fmt_iv(map));
